@@ -35,10 +35,20 @@ class Worker:
         self.p = subprocess.Popen([PY, "-m", "pv.native"], stdin=subprocess.PIPE, stdout=subprocess.PIPE,
                                   stderr=subprocess.DEVNULL, text=True, env=_env(jit), cwd=ROOT, bufsize=1)
 
-    def call(self, module, func, kwargs):
+    def call(self, module, func, kwargs, timeout=None):
+        import select
+        import time as _t
+
+        timeout = timeout or float(os.environ.get("PV_NATIVE_TIMEOUT", "240"))
         self.p.stdin.write(json.dumps(dict(module=module, func=func, kwargs=kwargs)) + "\n")
         self.p.stdin.flush()
+        t_end = _t.time() + timeout
         while True:
+            left = t_end - _t.time()
+            ready, _, _ = select.select([self.p.stdout], [], [], max(0.0, left))
+            if not ready:
+                self.p.kill()
+                raise TimeoutError(f"native job {module}.{func} exceeded {timeout:.0f}s (worker killed)")
             line = self.p.stdout.readline()
             if not line:
                 raise RuntimeError("native worker died")
@@ -59,14 +69,14 @@ class Worker:
 _W = {}
 
 
-def call(module, func, kwargs, jit=True):
+def call(module, func, kwargs, jit=True, timeout=None):
     w = _W.get(jit)
     if w is None or w.p.poll() is not None:
         w = _W[jit] = Worker(jit)
-    return w.call(module, func, kwargs)
+    return w.call(module, func, kwargs, timeout)
 
 
-def pmap(module, func, jobs, nproc=None, jit=True):
+def pmap(module, func, jobs, nproc=None, jit=True, timeout=None):
     nproc = max(1, min(nproc or int(os.environ.get("PV_NPROC", "14")), len(jobs)))
     results = [None] * len(jobs)
     errors = []
@@ -83,7 +93,7 @@ def pmap(module, func, jobs, nproc=None, jit=True):
                     except StopIteration:
                         return
                 try:
-                    results[i] = w.call(module, func, kw)
+                    results[i] = w.call(module, func, kw, timeout)
                 except Exception as e:  # worker crash is a checker problem, not a violation
                     errors.append(f"job {i}: {e}")
                     results[i] = dict(_error=str(e))
